@@ -213,6 +213,9 @@ func checkProperty(prop, tier, repo, verif string, seed int, t0 time.Time) int {
 	if tier == "thorough" {
 		timeout = 240
 	}
+	if v, err := strconv.Atoi(os.Getenv("VERIF_TIMEOUT")); err == nil && v > 0 && prop != "C19" {
+		timeout = v // must-fail corpus runs: a smaller budget is enough to see an obligation fail
+	}
 	modes := []struct {
 		name string
 		m    *Mode
